@@ -11,3 +11,6 @@ import CantoVerif.Proofs.CoinswapArith
 import CantoVerif.Proofs.CoinswapEffects
 import CantoVerif.Proofs.CoinswapWF
 import CantoVerif.Props.C01
+import CantoVerif.Model.Govshuttle
+import CantoVerif.Spec.Govshuttle
+import CantoVerif.Driver.Govshuttle
